@@ -43,6 +43,16 @@ struct Case {
   uint64_t u(const std::string &k) const { return strtoull(s(k).c_str(), nullptr, 0); }
   uint64_t u(const std::string &k, uint64_t dflt) const { return has(k) ? u(k) : dflt; }
 
+  // sub-case: all keys starting with prefix, prefix stripped
+  Case sub(const std::string &prefix) const {
+    Case o;
+    for (auto &p : kv)
+      if (p.first.compare(0, prefix.size(), prefix) == 0) o.kv.emplace_back(p.first.substr(prefix.size()), p.second);
+    return o;
+  }
+  void add_sub(const std::string &prefix, const Case &c) {
+    for (auto &p : c.kv) kv.emplace_back(prefix + p.first, p.second);
+  }
   std::string str() const {
     std::string o;
     for (auto &p : kv) {
